@@ -202,17 +202,70 @@ def _lookup(prog: Program, run: Run) -> None:
                           "ID in the innermost one (layer)", f"{f.module.rel}:{lp.lineno}",
                           stmt_key(lp))
         rets = [r for r in ast.walk(lp) if isinstance(r, ast.Return)]
-        if rets and all(ast.unparse(r.value) == "obj" for r in rets):
+
+        def binding(name: str) -> Optional[ast.AST]:
+            vals = []
+            for x in ast.walk(lp):
+                if isinstance(x, ast.NamedExpr) and isinstance(x.target, ast.Name) and \
+                        x.target.id == name:
+                    vals.append(x.value)
+                if isinstance(x, ast.Assign) and len(x.targets) == 1 and isinstance(
+                        x.targets[0], ast.Name) and x.targets[0].id == name:
+                    vals.append(x.value)
+            return vals[0] if len(vals) == 1 else None
+
+        def lookup(e: Optional[ast.AST]) -> Optional[Tuple[ast.AST, ast.AST]]:
+            """(table, key) of `table.get(key)` / `table[key]`"""
+            if isinstance(e, ast.Call) and call_name(e) == "get" and isinstance(
+                    e.func, ast.Attribute) and len(e.args) == 1:
+                return e.func.value, e.args[0]
+            if isinstance(e, ast.Subscript):
+                return e.value, e.slice
+            return None
+        refp = f.params()[1]
+        frag_var = ast.unparse(lp.target)
+        hit_ok = bool(rets)
+        obj_names = set()
+        for r in rets:
+            v = r.value
+            if not isinstance(v, ast.Name):
+                hit_ok = False
+                continue
+            obj_names.add(v.id)
+            lk = lookup(binding(v.id))
+            if lk is None or ast.unparse(lk[1]) != f"{refp}.ref_id":
+                hit_ok = False
+                continue
+            tbl = lk[0]
+            tl = lookup(binding(tbl.id)) if isinstance(tbl, ast.Name) else lookup(tbl)
+            if tl is None or ast.unparse(tl[0]) != "self._db" or ast.unparse(tl[1]) != frag_var:
+                hit_ok = False
+        if rets and all(isinstance(r.value, ast.Name) for r in rets):
             run.ok(R, C, "the first fragment that knows the ID wins", f"{f.module.rel}:{lp.lineno}")
         else:
             run.violation(R, C, "first-hit", "the loop does not return the first hit", f.loc)
-        s = ast.unparse(lp)
-        if "doc_frag_db.get(ref.ref_id)" in s and "self._db.get(ref_frag)" in s:
+        if hit_ok:
             run.ok(R, C, "looks the local ID up in the fragment's own table", f.loc)
         else:
             run.violation(R, C, "lookup", "does not look ref.ref_id up in the table of the "
                           "fragment", f.loc)
-        if "odxassert(isinstance(obj, expected_type))" in s:
+        etp = f.params()[2] if len(f.params()) > 2 else "expected_type"
+        def is_type_test(x: ast.AST) -> bool:
+            return isinstance(x, ast.Call) and call_name(x) == "isinstance" and \
+                len(x.args) == 2 and ast.unparse(x.args[0]) in obj_names and \
+                ast.unparse(x.args[1]) == etp
+        asserted = False
+        for x in ast.walk(lp):
+            # the type test feeds an odxassert, or guards a raise / odxraise
+            if isinstance(x, ast.Call) and call_name(x) == "odxassert" and x.args and any(
+                    is_type_test(y) for y in ast.walk(x.args[0])):
+                asserted = True
+            if isinstance(x, ast.If) and any(is_type_test(y) for y in ast.walk(x.test)) and any(
+                    isinstance(y, ast.Raise) or (isinstance(y, ast.Call) and
+                                                 call_name(y) == "odxraise")
+                    for b_ in x.body + x.orelse for y in ast.walk(b_)):
+                asserted = True
+        if asserted:
             run.ok(R, C, "the expected type is asserted", f.loc)
         else:
             run.violation(R, C, "type-check", "the expected type is not asserted", f.loc)
@@ -404,7 +457,19 @@ def _ownership(prog: Program, run: Run) -> None:
                           stmt_key(copies[0]))
         else:
             s = ast.unparse(cm.node)
-            if "_db" in s and (".copy()" in s or "dict(" in s) and ".items()" in s:
+            # the copy's `_db` is built by copying every per-fragment table
+            deep = False
+            for x in ast.walk(cm.node):
+                if isinstance(x, ast.DictComp) and isinstance(x.value, ast.Call) and (
+                        call_name(x.value) in ("copy", "dict")):
+                    deep = True
+                if isinstance(x, ast.Call) and call_name(x) == "deepcopy":
+                    deep = True
+                if isinstance(x, ast.For) and any(
+                        isinstance(y, ast.Call) and call_name(y) in ("copy", "dict")
+                        for y in ast.walk(x)):
+                    deep = True
+            if deep:
                 run.ok(R, "OdxLinkDatabase.__copy__", "copies the per-fragment tables, so a copy "
                        "can be extended without touching the original", cm.loc)
             else:
